@@ -31,6 +31,8 @@ CONSTS = {
     "BONDING_ASSETS_LIMIT": (LH + "/whale_lair/src/state.rs", r"pub const BONDING_ASSETS_LIMIT: usize = ([0-9_]+);"),
     "MINIMUM_AGGREGABLE_BALANCE": (LH + "/fee_collector/src/commands.rs", r"const MINIMUM_AGGREGABLE_BALANCE: Uint128 = Uint128::new\(([0-9_]+)(?:u128)?\)"),
     "EPOCH_CLAIM_CAP": (PN + "/incentive/src/claim.rs", r"const EPOCH_CLAIM_CAP: u64 = ([0-9_]+)(?:u64)?;"),
+    "DEFAULT_SLIPPAGE": (STD + "/pool_network/swap.rs", r'pub const DEFAULT_SLIPPAGE: &str = "([0-9.]+)";'),
+    "MAX_ALLOWED_SLIPPAGE": (STD + "/pool_network/swap.rs", r'pub const MAX_ALLOWED_SLIPPAGE: &str = "([0-9.]+)";'),
     "MIN_FLOW_AMOUNT": (PN + "/incentive/src/execute/open_flow.rs", r"const MIN_FLOW_AMOUNT: Uint128 = Uint128::new\(([0-9_]+)(?:u128)?\)"),
 }
 
@@ -153,6 +155,9 @@ def main():
                 problems.append("constant %s not found in %s" % (name, rel))
             continue
         val = m.group(1).replace("_", "")
+        if "." in val:  # decimal string -> Decimal atomics (18 places)
+            ip, fp = val.split(".")
+            val = str(int(ip) * 10**18 + int((fp + "0" * 18)[:18]))
         lines.append("Definition %s : Z := %s." % (name, val))
     lines.append("Open Scope string_scope.")
     for cname, (rel, ename) in ENUMS.items():
